@@ -340,7 +340,7 @@ func typeShort(t types.Type) string {
 		return types.Typ[b.Kind()].Name() // byte -> uint8, rune -> int32
 	}
 	s := types.TypeString(t, func(p *types.Package) string {
-		if strings.HasPrefix(p.Path(), modPath) || !strings.Contains(p.Path(), "/") {
+		if isModPath(p.Path()) || !strings.Contains(p.Path(), "/") {
 			return p.Name()
 		}
 		return p.Path() // packages outside the module by full path: names are not unique (sync vs internal/sync)
